@@ -30,7 +30,7 @@ func (c14) Meta() fw.Meta {
 			"time series domain: step >= 1 and len(values) == uint32(until-from)/step (the count is not transmitted), or the all-zero absent series",
 			"headers: layouts accepted by NewHeader (C07 decides which those are)",
 		},
-		Obligations: []string{"header_roundtrips", "timeseries_roundtrips", "points_roundtrips", "point_roundtrips", "value_roundtrips", "timestamp_roundtrips", "duration_roundtrips", "archiveinfo_roundtrips", "prefixes_checked", "retry_loops", "concat_sequences", "tail_alias_checked", "nan_payload_values", "absent_series_roundtrips", "wide_range_series", "negative_durations"},
+		Obligations: []string{"header_roundtrips", "timeseries_roundtrips", "points_roundtrips", "point_roundtrips", "value_roundtrips", "timestamp_roundtrips", "duration_roundtrips", "archiveinfo_roundtrips", "prefixes_checked", "retry_loops", "concat_sequences", "tail_alias_checked", "nan_payload_values", "absent_series_roundtrips", "wide_range_series", "negative_durations", "appends_onto_nonempty_destination"},
 	}
 }
 
@@ -45,6 +45,7 @@ func (c14) Cases(tier string) int {
 type codecObj struct {
 	kind string
 	enc  []byte
+	app  func(dst []byte) []byte // the object's AppendTo
 	// dec decodes from src into a fresh object and returns the remainder and a description of any inequality with the original.
 	dec     func(src []byte) (rest []byte, err error, diff string)
 	payload int
@@ -110,7 +111,7 @@ func (c14) genObj(c *fw.Ctx, j int) codecObj {
 			panic(err)
 		}
 		enc := h.AppendTo(nil)
-		return codecObj{kind: "header", enc: enc, payload: len(l.Archs), dec: func(src []byte) ([]byte, error, string) {
+		return codecObj{kind: "header", enc: enc, app: h.AppendTo, payload: len(l.Archs), dec: func(src []byte) ([]byte, error, string) {
 			var g wt.Header
 			if junk := model.EncodeHeader(model.Layout{Archs: []model.Arch{{Step: 7, Points: 11}, {Step: 21, Points: 9}, {Step: 63, Points: 8}}, Method: 5, Xff: 0.25}); true {
 				g.TakeFrom(junk) // the destination is REUSED: it already holds another header
@@ -182,7 +183,7 @@ func (c14) genObj(c *fw.Ctx, j int) codecObj {
 			ts = wt.NewTimeSeries(from, wt.Timestamp(until), step, vals)
 		}
 		enc := ts.AppendTo(nil)
-		return codecObj{kind: "timeseries", enc: enc, payload: n, dec: func(src []byte) ([]byte, error, string) {
+		return codecObj{kind: "timeseries", enc: enc, app: ts.AppendTo, payload: n, dec: func(src []byte) ([]byte, error, string) {
 			g := *wt.NewTimeSeries(1000, 1030, 10, []wt.Value{1, 2, 3}) // reused destination holding an older series
 			rest, err := g.TakeFrom(src)
 			if err != nil {
@@ -211,7 +212,7 @@ func (c14) genObj(c *fw.Ctx, j int) codecObj {
 			pts[i] = wt.Point{Time: genTimestampAny(r), Value: genValueAny(r)}
 		}
 		enc := pts.AppendTo(nil)
-		return codecObj{kind: "points", enc: enc, payload: n, dec: func(src []byte) ([]byte, error, string) {
+		return codecObj{kind: "points", enc: enc, app: pts.AppendTo, payload: n, dec: func(src []byte) ([]byte, error, string) {
 			g := wt.Points{{Time: 1, Value: 2}, {Time: 3, Value: 4}} // reused destination holding an older list
 			rest, err := g.TakeFrom(src)
 			if err != nil {
@@ -229,7 +230,7 @@ func (c14) genObj(c *fw.Ctx, j int) codecObj {
 		}}
 	case 4:
 		p := wt.Point{Time: genTimestampAny(r), Value: genValueAny(r)}
-		return codecObj{kind: "point", enc: p.AppendTo(nil), payload: 1, dec: func(src []byte) ([]byte, error, string) {
+		return codecObj{kind: "point", enc: p.AppendTo(nil), app: p.AppendTo, payload: 1, dec: func(src []byte) ([]byte, error, string) {
 			var g wt.Point
 			rest, err := g.TakeFrom(src)
 			if err == nil && (g.Time != p.Time || valueBits(g.Value) != valueBits(p.Value)) {
@@ -242,7 +243,7 @@ func (c14) genObj(c *fw.Ctx, j int) codecObj {
 		if v != v {
 			c.Count("nan_payload_values", 1)
 		}
-		return codecObj{kind: "value", enc: v.AppendTo(nil), payload: 1, dec: func(src []byte) ([]byte, error, string) {
+		return codecObj{kind: "value", enc: v.AppendTo(nil), app: v.AppendTo, payload: 1, dec: func(src []byte) ([]byte, error, string) {
 			var g wt.Value
 			rest, err := g.TakeFrom(src)
 			if err == nil && valueBits(g) != valueBits(v) {
@@ -253,7 +254,7 @@ func (c14) genObj(c *fw.Ctx, j int) codecObj {
 	case 6:
 		if r.Intn(2) == 0 {
 			t := genTimestampAny(r)
-			return codecObj{kind: "timestamp", enc: t.AppendTo(nil), payload: 1, dec: func(src []byte) ([]byte, error, string) {
+			return codecObj{kind: "timestamp", enc: t.AppendTo(nil), app: t.AppendTo, payload: 1, dec: func(src []byte) ([]byte, error, string) {
 				var g wt.Timestamp
 				rest, err := g.TakeFrom(src)
 				if err == nil && g != t {
@@ -274,7 +275,7 @@ func (c14) genObj(c *fw.Ctx, j int) codecObj {
 		if d < 0 {
 			c.Count("negative_durations", 1)
 		}
-		return codecObj{kind: "duration", enc: d.AppendTo(nil), payload: 1, dec: func(src []byte) ([]byte, error, string) {
+		return codecObj{kind: "duration", enc: d.AppendTo(nil), app: d.AppendTo, payload: 1, dec: func(src []byte) ([]byte, error, string) {
 			var g wt.Duration
 			rest, err := g.TakeFrom(src)
 			if err == nil && g != d {
@@ -285,7 +286,7 @@ func (c14) genObj(c *fw.Ctx, j int) codecObj {
 	default:
 		a := wt.NewArchiveInfo(wt.Duration(int32(r.Uint32())), r.Uint32())
 		enc := a.AppendTo(nil)
-		return codecObj{kind: "archiveinfo", enc: enc, payload: 1, dec: func(src []byte) ([]byte, error, string) {
+		return codecObj{kind: "archiveinfo", enc: enc, app: a.AppendTo, payload: 1, dec: func(src []byte) ([]byte, error, string) {
 			var g wt.ArchiveInfo
 			rest, err := g.TakeFrom(src)
 			if err == nil && (!g.Equal(a) || !bytes.Equal(g.AppendTo(nil), enc)) {
@@ -305,6 +306,27 @@ func (c14) Run(c *fw.Ctx) {
 		c14CheckObj(c, r, o)
 		if o.payload > 0 {
 			c.Nontrivial(o.kind, string(o.enc[:minI(len(o.enc), 64)]), len(o.enc))
+		}
+	}
+	// encoding appends: onto a destination that already holds bytes (other messages, with or without spare capacity) the
+	// result is those bytes, untouched, followed by exactly the encoding
+	for q := 0; q < 20 && !c.Violated(); q++ {
+		o := objs[r.Intn(len(objs))]
+		if o.app == nil {
+			continue
+		}
+		prefix := make([]byte, 1+r.Intn(90), 200+r.Intn(2)*4000)
+		r.Read(prefix)
+		if r.Intn(2) == 0 {
+			prefix = append([]byte(nil), prefix...) // no spare capacity
+		}
+		keep := append([]byte(nil), prefix...)
+		out := o.app(prefix)
+		c.Count("appends_onto_nonempty_destination", 1)
+		if len(out) != len(keep)+len(o.enc) || !bytes.Equal(out[:len(keep)], keep) || !bytes.Equal(out[len(keep):], o.enc) {
+			c.Violationf("append-damages-destination:"+o.kind, fw.J{"kind": o.kind, "prefix_len": len(keep), "prefix_cap": cap(prefix), "encoding_len": len(o.enc), "result_len": len(out),
+				"prefix_intact": len(out) >= len(keep) && bytes.Equal(out[:len(keep)], keep)},
+				"%s.AppendTo onto %d existing bytes: the result is not those bytes followed by the %d-byte encoding", o.kind, len(keep), len(o.enc))
 		}
 	}
 	// concatenations of 2-5 messages decode in sequence
